@@ -113,7 +113,7 @@ impl Monitor for C11 {
         "C11"
     }
     fn rule(&self) -> String {
-        "cases = (a) seeded random universes and (b) fan-out shapes (root or a hub solvable with k = 1..12 single requirements / one k-member union / mixed requirements+constraints on distinct packages), each solved under the manual executor with 4 release policies. The executor logs every quiescent point (solver future returned Pending) with the multiset of parked provider futures. Online monitor: at every quiescent point, every package name mentioned by dependency information already returned (root requirements and constraints; requirements and constrains of each solvable whose get_dependencies has returned) must already have a get_candidates call in the log. For fan-out shapes additionally: k get_candidates futures are parked simultaneously at the first quiescent point (after the hub's dependencies return for the hub shape). distinct = content hash; non-trivial = distinct case with a quiescent point at which >= 2 implied names existed".into()
+        "cases = (a) seeded random universes and (b) fan-out shapes (root or a hub solvable with k = 1..12 (one in sixteen: k up to 400) single requirements / one k-member union / mixed requirements+constraints on distinct packages), each solved under the manual executor with 4 release policies. The executor logs every quiescent point (solver future returned Pending) with the multiset of parked provider futures. Online monitor: at every quiescent point, every package name mentioned by dependency information already returned (root requirements and constraints; requirements and constrains of each solvable whose get_dependencies has returned) must already have a get_candidates call in the log. For fan-out shapes additionally: k get_candidates futures are parked simultaneously at the first quiescent point (after the hub's dependencies return for the hub shape). distinct = content hash; non-trivial = distinct case with a quiescent point at which >= 2 implied names existed".into()
     }
     fn cases(&self, tier: Tier) -> u64 {
         tier.pick(240_000, 4_800_000)
@@ -124,7 +124,10 @@ impl Monitor for C11 {
     fn generate(&self, r: &mut Rng, _tier: Tier, i: u64) -> C11Case {
         let mut policies = vec![Policy::Oldest, Policy::Newest, Policy::Random(r.next()), Policy::Random(r.next())];
         if i % 4 == 0 {
-            let k = 1 + (i / 4 % 12) as usize;
+            // mostly k = 1..12; one in sixteen fan-outs is WIDE (beyond any small fixed cap on the
+            // number of requests in flight, and across the 2^k / chunk sizes used internally)
+            let wide = [16usize, 31, 33, 63, 64, 65, 100, 128, 129, 200, 257, 400];
+            let k = if i / 4 % 16 == 13 && !crate::report::small() { wide[r.below(wide.len() as u64) as usize] } else { 1 + (i / 4 % 12) as usize };
             let (u, p, w) = fanout(r, k);
             policies.truncate(3);
             return C11Case { family: format!("fanout-{k}"), u, p, policies, expect_root_width: Some(w), pause_mask: PAUSE_CANDS | PAUSE_DEPS };
